@@ -763,11 +763,11 @@ def broker_behaviours(v, spec, depth, mode="cover", maxqos=2):
     return behs
 
 
-def broker_replay(v, pid, behs, label, auth="mockSuccess", maxqos=2, own_tags=None, frag=0):
+def broker_replay(v, pid, behs, label, auth="mockSuccess", maxqos=2, own_tags=None, frag=0, orderonly=False):
     own_tags = own_tags or {pid}
     if len(behs) == 0:
         raise Infra("%s: the specification produced no behaviours to replay" % label)
-    res = core.merge(core.run_sharded(["brokerreplay", "-auth", auth, "-maxqos", str(maxqos), "-frag", str(frag), "-own", ",".join(sorted(own_tags))], behs, timeout=2400))
+    res = core.merge(core.run_sharded(["brokerreplay", "-auth", auth, "-maxqos", str(maxqos), "-frag", str(frag), "-own", ",".join(sorted(own_tags))] + (["-orderonly", "1"] if orderonly else []), behs, timeout=2400))
     mine = [m for m in res.get("mismatches", []) if m.get("tag") in own_tags]
     foreign = [m for m in res.get("mismatches", []) if m.get("tag") not in own_tags]
     v.cov["parts"][label] = {"behaviours": res.get("evaluations", 0), "steps": res.get("steps", 0),
@@ -830,7 +830,7 @@ def c01(tier):
                         extra=lambda v: fanin_validate(v, "C01", tier))
 
 
-def q2many(v, tier):
+def q2many(v, tier, pid="C02", own=None, orderonly=False):
     """many QoS 2 exchanges open at once: TLC -simulate behaviours of Q2ManySpec"""
     thorough = tier == "thorough"
     depth = 140 if not thorough else 220
@@ -840,7 +840,7 @@ def q2many(v, tier):
     behs = core.behaviours(r.lines)
     if not behs:
         raise Infra("Q2ManySpec simulation produced no behaviours")
-    broker_replay(v, "C02", behs, "many-open-exchanges(simulation)", own_tags={"C02", "C01"})
+    broker_replay(v, pid, behs, "many-open-exchanges(simulation%s)" % (", delivery order only" if orderonly else ""), own_tags=own or {"C02", "C01"}, orderonly=orderonly)
 
 
 @check("C02")
@@ -902,7 +902,8 @@ CONSTANTS
  Gaps = {2, 4, 5, 9}
  LongGaps = {26}
  MaxSends = %d
- Kinds = {"ping", "pub", "part1", "part3", "partbig"}
+ Kinds = {"ping", "pub", "part1", "part3", "partbig", "backlog"}
+ BacklogHold = 14
  Priors = {"none", "long"}
 INVARIANTS SilentDropped WillIffExpired Emit
 PROPERTIES ActiveNeverDropped
@@ -914,7 +915,7 @@ def c19(tier):
     import random
     v = Verdict("C19", tier)
     thorough = tier == "thorough"
-    r = core.cached_tlc("keepalive-%d" % (4 if thorough else 3), "KeepAlive", KA_CFG % (4 if thorough else 3), workers=1, timeout=600)
+    r = core.cached_tlc("keepalive2-%d" % (4 if thorough else 3), "KeepAlive", KA_CFG % (4 if thorough else 3), workers=1, timeout=600)
     v.tlc("KeepAlive", r)
     scheds = core.behaviours(r.lines)
     rng = random.Random(core.seed())
@@ -1163,6 +1164,9 @@ def c17(tier):
     fanin_validate(v, "C17", tier)
     # packets stay whole only if the ring never hands out room that still holds unsent bytes: its guards to the byte
     ring_edge(v, {"C14"})
+    # publisher order with many QoS 2 exchanges open at once (the receiver's queue of stored messages grows and wraps):
+    # the order in which the witness receives the messages is compared with the order of the specification's hand-overs
+    q2many(v, tier, "C17", {"C17"}, orderonly=True)
     v.cov["rule"] = ("recorded runs of a real broker with 2-4 raw publishers + Server.Publish, 1-2 shared subscribers, 16 KiB rings, payload sizes that make the outgoing ring wrap "
                      "mid-packet, QoS 0/1/2, plus retained rewriting and subscription churn; every enq hook event (under the write mutex, before the ring commit) and every packet "
                      "strictly parsed by a client is one event; TLC validates the log against OutStreamTrace (whole packets: each received packet is the head of the connection's "
